@@ -645,6 +645,10 @@ class Field(Criterion, JSON):
         self.name = name
         self.table = table  # type:ignore[assignment]
 
+    def __hash__(self) -> int:
+        # the default rendering prints no namespace: same-named fields of different tables are different fields
+        return hash((self.name, self.table))
+
     def nodes_(self) -> Iterator[NodeT]:
         yield self  # type:ignore[misc]
         if self.table is not None:
